@@ -52,7 +52,9 @@ const (
 var (
 	IQTypes  = []string{"get", "set", "result", "error", "", "foo", "GET"}
 	IDs      = []string{"x", "y", "", "id-1", "a&b<c", "éß", "0"}
-	Froms    = []string{"", "a@example.net/r", OwnBare, OwnFull, "@@", "A@EXAMPLE.net/r", "example.net", "b@example.org"}
+	// the session's own full, bare and domain address, near-misses of them, other senders
+	Froms = []string{"", "a@example.net/r", OwnBare, OwnFull, "@@", "A@EXAMPLE.net/r", "example.net", "b@example.org",
+		"example.net/res", "me@example.net/other", "ME@example.net", "xme@example.net", "net"}
 	Payloads = []string{
 		"",
 		"<query xmlns='urn:example:q'/>",
@@ -91,6 +93,8 @@ var (
 		"<stream:error><see-other-host xmlns='urn:ietf:params:xml:ns:xmpp-streams'>h.example</see-other-host></stream:error>",
 		"<stream:error/>", "<stream:error><foo/></stream:error>", "<stream:error>t<!-- c --><system-shutdown xmlns='urn:ietf:params:xml:ns:xmpp-streams'><x/></system-shutdown></stream:error>",
 		"<stream:error><text xmlns='urn:ietf:params:xml:ns:xmpp-streams'>only text</text></stream:error>",
+		"<stream:error><text xmlns='urn:ietf:params:xml:ns:xmpp-streams' xml:lang='de'>kaputt</text><x xmlns='urn:example:other'><y/></x></stream:error>",
+		"<stream:error><app-specific xmlns='urn:example:other'/></stream:error>",
 		"<stream:error><reset xmlns='urn:ietf:params:xml:ns:xmpp-streams'/><conflict xmlns='urn:ietf:params:xml:ns:xmpp-streams'/></stream:error>",
 		"<stream:features/>", "<stream:features><bind xmlns='urn:ietf:params:xml:ns:xmpp-bind'/></stream:features>",
 		"<stream:stream>", "<stream:stream xmlns='jabber:client' xmlns:stream='http://etherx.jabber.org/streams'>",
@@ -341,7 +345,7 @@ func GenRead(r *hx.Rand, kind string) []Op {
 	return nil
 }
 
-var RetKinds = []string{"nil", "nil", "nil", "other", "stream", "eof"}
+var RetKinds = []string{"nil", "nil", "nil", "nil", "other", "stream", "eof", "wrapeof", "iseof", "wrapother", "custom"}
 
 func GenRet(r *hx.Rand, kind string) []Op {
 	switch kind {
@@ -349,8 +353,8 @@ func GenRet(r *hx.Rand, kind string) []Op {
 		return []Op{{K: "ret", Ret: "other"}}
 	case "stream":
 		return []Op{{K: "ret", Ret: "stream", Cond: pick(r, []string{"not-authorized", "policy-violation", "bad-format"})}}
-	case "eof":
-		return []Op{{K: "ret", Ret: "eof"}}
+	case "eof", "wrapeof", "iseof", "wrapother", "custom":
+		return []Op{{K: "ret", Ret: kind}}
 	}
 	return nil
 }
